@@ -120,6 +120,15 @@ def run(tier):
         keep = os.path.join(vlib.REPLAYS, "C01-trace-index.ndjson")
         shutil.copy(t6, keep)
         ck.violation("CharstringTrace rejected an INDEX observation: %s" % info.get("rejected", "")[:1200], {"kind": "index-trace", "trace": keep})
+    # the charstring evaluator (read-fonts) on Charstring.tla's program family: a value or a named error, never a panic (the
+    # model's verdict and command stream are compared under C02, which validates the trace)
+    r = vlib.run_tlc(wd, "CharstringMC", cfg="CharstringMC_%s.cfg" % tier, workers=8, timeout=1800, xmx="8g", out_name="charstring.out")
+    ck.add_tlc("tlc:Charstring", r)
+    if not r.ok:
+        ck.spec_error("CharstringMC", r)
+    res = vlib.run_harness("fv-total", ["cs", "replay", "--cases", r.out, "--out", os.path.join(wd, "charstring.ndjson")], timeout=3000)
+    ck.add_harness("replay:charstring", res, traces=False)
+    os.remove(r.out)
     return ck.finish()
 
 
